@@ -77,17 +77,26 @@ def handle (op : String) (j : Json) : Option (Except String Json) :=
       let h ← (← getArr j "history").mapM markersOf
       pure <| jobj [("errors", errsJson (run foldAscii [] 0 h))]
   | "c10.file" => some do
-      let rows ← (← getArr j "rows").mapM rowOf
-      let tps := timePoints rows
-      let errs := run foldAscii [] 0 (tps.map (·.markers))
-      let labelled := errs.map fun (t, _, e) => jarr [jnat ((tps[t]?.map (·.orig)).getD 0), Json.str (errName e)]
+      let rowsJ ← getArr j "rows"
+      let rows ← rowsJ.mapM rowOf
+      -- severities of the row's cell issues (optional key "issues": ["warning" | "error", …])
+      let sevs ← rowsJ.mapM fun r => match r.getObjVal? "issues" with
+        | .ok v => do (← asArr v).mapM fun x => match x with
+            | Json.str "warning" => pure Sev.warning
+            | Json.str "error" => pure Sev.error
+            | _ => .error "issue severity must be warning|error"
+        | .error _ => pure []
+      let ci : Nat → List Sev := fun i => sevs.getD i []
+      let tps := keptPoints rows ci
+      let labelled := (fileErrors foldAscii rows ci).map fun (l, e) => jarr [jnat l, Json.str (errName e)]
       -- original rows that take part in a time point merged from several frame rows
       let split := sortRows (splitRows rows)
-      let amb := tps.filterMap fun tp =>
+      let amb := (timePoints rows).filterMap fun tp =>
         if (split.filter (fun r => r.time == tp.time)).length > 1 then some tp.time else none
       let ambRows := (split.filter (fun r => amb.contains r.time)).map (·.orig)
       pure <| jobj [("errors", jarr labelled), ("ambiguous_labels", jarr (ambRows.eraseDups.map jnat)),
-                    ("timepoints", jarr (tps.map fun r => jarr [jint r.time, jnat r.markers.length, jnat r.orig]))]
+                    ("timepoints", jarr ((timePoints rows).map fun r => jarr [jint r.time, jnat r.markers.length, jnat r.orig])),
+                    ("kept", jarr (tps.map fun r => jarr [jint r.time, jnat r.markers.length, jnat r.orig]))]
   | _ => none
 
 end HedVerif.Driver.C10
